@@ -1,4 +1,7 @@
 pub mod common;
 pub mod gen;
+pub mod pred;
 pub mod props;
 pub mod refcodec;
+pub mod sim;
+pub mod simgen;
